@@ -45,6 +45,17 @@ Theorem C16_postconditions : forall n evs out,
 Proof. exact winsort_post. Qed.
 Print Assumptions C16_postconditions.
 
+(* "within the look-back window": a larger window never hurts.  The precondition is monotone in n and the
+   result does not depend on n: every window at least as large gives the same bytes. *)
+Theorem C16_window_monotone : forall n m evs, (n <= m)%nat -> pre n evs -> pre m evs.
+Proof. exact pre_mono. Qed.
+Print Assumptions C16_window_monotone.
+
+Theorem C16_larger_window_same_output : forall n m evs,
+  (n <= m)%nat -> pre n evs -> winsort m evs = winsort n evs /\ winsort m evs = Some (ssort evs).
+Proof. exact winsort_larger_window. Qed.
+Print Assumptions C16_larger_window_same_output.
+
 (* sorted + stable leave no freedom: the specification fixes the output completely *)
 Theorem C16_spec_determines_output : forall evs o1 o2,
   sorted o1 -> stable evs o1 -> sorted o2 -> stable evs o2 -> o1 = o2.
